@@ -1,4 +1,5 @@
 import Driver.Basic
+import Driver.Levels
 
 open Driver in
 def main (args : List String) : IO UInt32 := do
@@ -9,4 +10,5 @@ def main (args : List String) : IO UInt32 := do
   | ["filter"] => loop stdin stdout filterStep { f := Filter.new 0 0, hashes := [] }; pure 0
   | ["skiplist"] => loop stdin stdout skipStep { maxLevel := 1, nodes := [], spec := [] }; pure 0
   | ["wm"] => loop stdin stdout wmStep WM2.init; pure 0
+  | ["levels"] => loop stdin stdout levelsStep lvInit; pure 0
   | _ => IO.eprintln "usage: driver <suite>"; pure 2
